@@ -2755,6 +2755,78 @@ func ruleMDOMIT(c *Ctx) []Obligation {
 			obs = append(obs, o)
 		}
 	})
+	// omission through a helper that is told what "absent" means: appendBoolField(fields, "k", md.F, absent)
+	// leaves the field out when val == absent — absent must be the zero value the translator leaves
+	type omitHelper struct{ val, absent int }
+	helpers := map[*types.Func]omitHelper{}
+	c.eachFunc(pkgMD, func(_ *packages.Package, fd *ast.FuncDecl, fn *types.Func) {
+		params := map[types.Object]int{}
+		k := 0
+		for _, fl := range fd.Type.Params.List {
+			for _, nm := range fl.Names {
+				params[info.Defs[nm]] = k
+				k++
+			}
+		}
+		for _, st := range fd.Body.List {
+			is, ok := st.(*ast.IfStmt)
+			if !ok || len(is.Body.List) != 1 {
+				continue
+			}
+			if _, isRet := is.Body.List[0].(*ast.ReturnStmt); !isRet {
+				continue
+			}
+			be, ok := unparen(is.Cond).(*ast.BinaryExpr)
+			if !ok || be.Op != token.EQL {
+				continue
+			}
+			x, ok1 := unparen(be.X).(*ast.Ident)
+			y, ok2 := unparen(be.Y).(*ast.Ident)
+			if !ok1 || !ok2 {
+				continue
+			}
+			xi, okx := params[info.ObjectOf(x)]
+			yi, oky := params[info.ObjectOf(y)]
+			if okx && oky {
+				helpers[fn] = omitHelper{xi, yi}
+			}
+		}
+	})
+	c.eachFunc(pkgMD, func(_ *packages.Package, fd *ast.FuncDecl, fn *types.Func) {
+		if fn.Name() != "LLString" || fd.Recv == nil {
+			return
+		}
+		ast.Inspect(fd.Body, func(n ast.Node) bool {
+			call, ok := n.(*ast.CallExpr)
+			if !ok {
+				return true
+			}
+			h, ok := helpers[calleeOf(info, call)]
+			if !ok || h.val >= len(call.Args) || h.absent >= len(call.Args) {
+				return true
+			}
+			// which of the two carries the field? the one that is not a constant
+			valArg, absArg := call.Args[h.val], call.Args[h.absent]
+			if info.Types[valArg].Value != nil && info.Types[absArg].Value == nil {
+				valArg, absArg = absArg, valArg
+			}
+			key := exprString(valArg)
+			for _, a := range call.Args {
+				if tv := info.Types[a]; tv.Value != nil && tv.Value.Kind() == constant.String {
+					key = constant.StringVal(tv.Value)
+				}
+			}
+			o := Obligation{Key: fmt.Sprintf("%s omits %q only when the field is zero", funcKey(fn), key), Pos: c.pos(call.Pos()), Verdict: OK, Tags: []string{"md"}, Detail: "omitted (by " + exprString(call.Fun) + ") at the zero value"}
+			av := info.Types[absArg].Value
+			zero := av != nil && (av.Kind() == constant.Bool && !constant.BoolVal(av) || av.Kind() == constant.Int && av.ExactString() == "0" || av.Kind() == constant.String && constant.StringVal(av) == "")
+			if !zero {
+				o.Verdict = VIOL
+				o.Detail = fmt.Sprintf("%s leaves the field out when %s equals %s, which is not the zero value: the translator leaves an absent field at its zero value, so the value printed by omission is read back as another one (the first print omits it, the second prints the zero value)", exprString(call.Fun), exprString(valArg), exprString(absArg))
+			}
+			obs = append(obs, o)
+			return true
+		})
+	})
 	return obs
 }
 
